@@ -240,26 +240,33 @@ type StreamScript struct {
 }
 
 type Script struct {
-	Streams            []StreamScript
-	ClientPol, SrvPol  string
-	ClientWin, SrvWin  uint32 // SETTINGS_INITIAL_WINDOW_SIZE announced at start
-	ClientChanges      [][]http2.Setting
-	ServerChanges      [][]http2.Setting
-	Pings              int
-	GoAway             bool
-	ClientPregrant     bool
-	ServerPregrant     bool
-	ClientSlow         bool
-	ServerSlow         bool
-	Features           map[string]bool
+	Streams           []StreamScript
+	ClientPol, SrvPol string
+	ClientWin, SrvWin uint32 // SETTINGS_INITIAL_WINDOW_SIZE announced at start
+	ClientChanges     [][]http2.Setting
+	ServerChanges     [][]http2.Setting
+	Pings             int
+	GoAway            bool
+	ClientPregrant    bool
+	ServerPregrant    bool
+	ClientSlow        bool
+	ServerSlow        bool
+	// no-return receivers: consumed credit is never handed back on streams (NoReturn) or on the
+	// connection (NoReturnConn); bodies toward such a receiver fit the window it announced, often
+	// exactly, so the sender-side window of the relay sits at 0 while zero-size frames (trailers,
+	// END_STREAM, RST_STREAM, new HEADERS) still have to pass
+	ClientNoReturn, ServerNoReturn         bool
+	ClientNoReturnConn, ServerNoReturnConn bool
+	Features                               map[string]bool
 }
 
 type Options struct {
 	Padding, Continuation, BigHeaders, Trailers, Reset, Push, Priority bool
-	WindowChanges, FrameSizeChanges, TableSizeChanges                 bool
-	Policies                                                          []string
-	MaxStreams                                                        int
-	MaxBody                                                           int
+	WindowChanges, FrameSizeChanges, TableSizeChanges                  bool
+	NoReturn                                                           bool
+	Policies                                                           []string
+	MaxStreams                                                         int
+	MaxBody                                                            int
 }
 
 var names = []string{"x-a", "x-b", "accept", "content-type", "x-request-id", "x-trailer-unique", "cookie", "x-long"}
@@ -428,6 +435,9 @@ func GenScript(r *lib.RNG, o Options) *Script {
 	}
 	s.Pings = r.Intn(3)
 	s.GoAway = r.Chance(1, 4)
+	if o.NoReturn {
+		genNoReturn(r.Sub(77), s)
+	}
 	for _, st := range s.Streams {
 		for _, dir := range [][]Elem{st.C2S, st.S2C} {
 			for _, e := range dir {
@@ -453,6 +463,120 @@ func GenScript(r *lib.RNG, o Options) *Script {
 		s.Features["settings-changes"] = true
 	}
 	return s
+}
+
+// genNoReturn turns one or both receivers into no-return receivers and fits the bodies sent
+// toward them into the credit they ever grant.
+func genNoReturn(r *lib.RNG, s *Script) {
+	dropWindowChanges := func(chs [][]http2.Setting) [][]http2.Setting {
+		var out [][]http2.Setting
+		for _, ch := range chs {
+			var keep []http2.Setting
+			for _, st := range ch {
+				if st.ID != http2.SettingInitialWindowSize {
+					keep = append(keep, st)
+				}
+			}
+			if len(keep) > 0 {
+				out = append(out, keep)
+			}
+		}
+		return out
+	}
+	// fit makes the flow-controlled octets of one direction of one stream at most budget, and
+	// exactly budget when exact is set and the stream has a place for a body; returns the octets
+	fit := func(dir *[]Elem, budget int, exact bool) int {
+		total, lastD, hdr := 0, -1, -1
+		var out []Elem
+		for _, el := range *dir {
+			if el.Kind == "D" {
+				el.Pad = 0
+				if total+len(el.Data) > budget {
+					el.Data = el.Data[:budget-total]
+				}
+				if len(el.Data) == 0 && !el.End {
+					continue
+				}
+				total += len(el.Data)
+			}
+			out = append(out, el)
+			if el.Kind == "D" && len(el.Data) > 0 {
+				lastD = len(out) - 1
+			}
+			if el.Kind == "H" && hdr < 0 {
+				hdr = len(out) - 1
+			}
+		}
+		if exact && total < budget {
+			need := budget - total
+			switch {
+			case lastD >= 0:
+				out[lastD].Data = append(append([]byte{}, out[lastD].Data...), r.Bytes(need)...)
+				total = budget
+			case hdr >= 0 && !out[hdr].End && hdr+1 < len(out):
+				// a body of exactly the window between the HEADERS and the element that ends the stream
+				out = append(out[:hdr+1], append([]Elem{{Kind: "D", Data: r.Bytes(need)}}, out[hdr+1:]...)...)
+				total = budget
+			}
+		}
+		*dir = out
+		return total
+	}
+	mode := r.Intn(12) // 0..3 one receiver/stream level, 4..5 connection level, rest: nothing
+	apply := func(client bool, conn bool) {
+		win := &s.SrvWin
+		if client {
+			win = &s.ClientWin
+		}
+		if conn {
+			*win = 65535
+		} else {
+			*win = uint32(lib.Pick(r, []int{16, 50, 200, 5000, 65535}))
+		}
+		if client {
+			s.ClientChanges, s.ClientPregrant = dropWindowChanges(s.ClientChanges), false
+			s.ClientNoReturn, s.ClientNoReturnConn = !conn, conn
+		} else {
+			s.ServerChanges, s.ServerPregrant = dropWindowChanges(s.ServerChanges), false
+			s.ServerNoReturn, s.ServerNoReturnConn = !conn, conn
+		}
+		left := 65535
+		for i := range s.Streams {
+			dir := &s.Streams[i].C2S
+			if client {
+				dir = &s.Streams[i].S2C
+			}
+			if conn {
+				// the last stream takes what is left of the connection window
+				exact := i == len(s.Streams)-1 && r.Chance(3, 4)
+				b := left
+				if !exact {
+					b = r.Intn(left/(len(s.Streams)-i) + 1)
+				}
+				left -= fit(dir, b, exact)
+			} else {
+				fit(dir, int(*win), r.Chance(2, 3))
+			}
+		}
+		if conn {
+			s.Features["no-return-conn"] = true
+		} else {
+			s.Features["no-return-stream"] = true
+		}
+	}
+	switch mode {
+	case 0:
+		apply(true, false)
+	case 1:
+		apply(false, false)
+	case 2:
+		apply(true, false)
+		apply(false, false)
+	case 3:
+		apply(true, true)
+	case 4:
+		apply(false, true)
+	}
 }
 
 func (s *Script) Shape() string {
@@ -622,6 +746,8 @@ func (rg *Rig) Run(sc *Script, r *lib.RNG, hb *lib.Heartbeat) Result {
 	se := newEndpoint("server", false, sconn, r.Sub(2), sc.SrvPol)
 	ce.pregrant, se.pregrant = sc.ClientPregrant, sc.ServerPregrant
 	ce.slow, se.slow = sc.ClientSlow, sc.ServerSlow
+	ce.noReturn, se.noReturn = sc.ClientNoReturn, sc.ServerNoReturn
+	ce.noReturnConn, se.noReturnConn = sc.ClientNoReturnConn, sc.ServerNoReturnConn
 	if sc.ClientSlow {
 		if tc, ok := cconn.(*net.TCPConn); ok {
 			tc.SetReadBuffer(4096)
